@@ -62,6 +62,8 @@ def gen_cases(ck):
     c = {'info': {'name': 'T', 'piece length': L, 'length': 2 ** 1024, 'pieces': bytes(20)}}; corpus.append((c, 'corpus 2^1024 length'))
     c = {'info': {'name': 'T', 'piece length': 2 ** 1024, 'length': 3 * 2 ** 1024 + 1, 'pieces': bytes(80)}}; corpus.append((c, 'corpus sound beyond float range'))
     c = copy.deepcopy(base); c['info']['files'] = {0: {'length': 10, 'path': ['a']}, 1: {'length': L, 'path': ['b']}}; corpus.append((c, 'corpus files as dict'))
+    # a length with a fractional part just above a multiple of the piece length (known finding: validate counts with the float, the export truncates)
+    corpus.append(({'info': {'name': 'T', 'piece length': L, 'length': L + 0.5, 'pieces': bytes(40)}}, 'corpus fractional length above a piece boundary'))
     for falsy in ([], (), {}, 0, None, ''):
         # a single-file length next to a 'files' entry that is present but falsy
         c = {'info': {'name': 'T', 'piece length': L, 'length': 10, 'files': falsy, 'pieces': bytes(20)}}
@@ -88,9 +90,23 @@ def gen_cases(ck):
     return cases
 
 
+def fractional_lengths(md):
+    """does a recorded length have a fractional part? (validate() counts pieces with the float, the export truncates it)"""
+    info = md.get('info') if isinstance(md, dict) else None
+    if not isinstance(info, dict):
+        return False
+    vals = [info.get('length')]
+    if isinstance(info.get('files'), (list, tuple)):
+        vals += [f.get('length') for f in info['files'] if isinstance(f, dict)]
+    return any(isinstance(v, float) and v == v and v not in (float('inf'), float('-inf')) and v != int(v) for v in vals)
+
+
 def classify(op, res, md, reason=None):
     if reason:
-        return 'unsound-export:' + reason.split(':')[0]
+        key = 'unsound-export:' + reason.split(':')[0]
+        if key == 'unsound-export:piece-count' and fractional_lengths(md):
+            key += ':fractional-length'
+        return key
     return 'export-raises:' + ''.join(res[1])
 
 
